@@ -2,12 +2,13 @@
 # tools/selftest_seeded.sh [ids...] : apply each seeded change to a scratch copy of /repo and run its property's quick check
 # (VERIF_REPO=<copy>); prints one line per change: CAUGHT (exit 1 with a VIOLATION line) / MISSED (exit 0) / INCONCLUSIVE (exit 2)
 cd "$(dirname "$0")/.."
+HERE=$(pwd)
 IDS=${@:-$(ls seeded)}
 W=${VERIF_SELFTEST_DIR:-/tmp/work}/selftest_$$
 mkdir -p "$(dirname $W)"
 for id in $IDS; do
   prop=${id%%-*}
-  rm -rf $W; cp -r /repo $W; (cd $W && git checkout -q -- . && git apply /verif/seeded/$id/patch.diff) || { echo "$id PATCH-DOES-NOT-APPLY"; continue; }
+  rm -rf $W; cp -r /repo $W; (cd $W && git checkout -q -- . && git apply $HERE/seeded/$id/patch.diff) || { echo "$id PATCH-DOES-NOT-APPLY"; continue; }
   out=$(VERIF_REPO=$W timeout 1800 ./check $prop --tier quick 2>&1); rc=$?
   case $rc in 1) v=CAUGHT;; 0) v=MISSED;; 2) v=INCONCLUSIVE;; *) v="rc=$rc";; esac
   echo "$id $v $(echo "$out" | grep -A1 '^VIOLATION' | grep '^  case' | head -1 | cut -c1-200)"
